@@ -738,17 +738,12 @@ static void DecodeEmulOneToTwoX(Word Code) {
             DestParts.Cnt  = 1;
         }
 
-        /* for PC-relative addressing, fix up destination displacement and
-           complain on displacement overflow: */
+        /* for PC-relative addressing, fix up destination displacement; as in
+           DecodeAdr(), the displacement of an extended instruction has 20
+           bits and wraps around, so every address remains reachable: */
 
         else if ((DestParts.Mode == eModeRegDisp) && (DestParts.Part == RegPC)) {
-            LongWord NewDist = DestParts.Val - 2;
-
-            if ((NewDist & 0x8000) != (DestParts.Val & 0x8000)) {
-                WrError(ErrNum_DistTooBig);
-                return;
-            }
-            DestParts.Val = NewDist;
+            DestParts.Val = (DestParts.Val - 2) & 0xfffff;
         }
 
         /* transform 0(Rn) as Dest back to @Rn as Src: */
